@@ -105,6 +105,7 @@ struct Engine {
 	long chunk_ctr = 0;
 	size_t recv_fault_at = (size_t)-1; // absolute inq offset at which the planned transport fault fires
 	int recv_fault_kind = 0;
+	bool recv_fault_more = false; // the fault is an EINTR and the rest of the answer stays readable
 	bool cut_after_queue = false;
 	// cache
 	Cache cache;
@@ -133,6 +134,7 @@ struct Engine {
 	bool reload_cr = false; // the reload window was opened by a Cache Reset (stays open across NO_INCR_UPDATE_AVAIL -> RESET -> SYNC)
 	std::vector<std::string> seq_pfx, seq_spki;
 	pthread_t fsm_thread;
+	pthread_t main_thread; // everything that is not the main thread is the socket's state-machine thread (one at a time)
 	bool have_fsm_thread = false;
 	int lock_depth = 0;
 	long battery_samples = 0;
@@ -387,7 +389,7 @@ static void pfx_cb(struct pfx_table *t, const struct pfx_record rec, const bool 
 	int id = pfx_to_id(&rec);
 	int src = rec.socket == &E->sock ? 0 : rec.socket == &E->other ? 1 : -1;
 	if (id < 0 || src < 0) { if (!E->weak && !E->mirror_bad) { E->mirror_bad = true; E->mirror_msg = "prefix callback for a record nobody announced"; } return; }
-	if (E->reload_active && E->lock_depth == 0 && E->have_fsm_thread && pthread_equal(pthread_self(), E->fsm_thread)) sample_battery(); // some paths notify while holding the table lock
+	if (E->reload_active && E->lock_depth == 0 && !pthread_equal(pthread_self(), E->main_thread)) sample_battery(); // some paths notify while holding the table lock
 	(added ? E->cb_ev[{id, src}].first : E->cb_ev[{id, src}].second)++;
 	bool ok = added ? E->pfx_mirror.insert({id, src}).second : E->pfx_mirror.erase({id, src}) == 1;
 	if (!ok && !E->mirror_bad) {
@@ -401,7 +403,7 @@ static void spki_cb(struct spki_table *t, const struct spki_record rec, const bo
 	int id = key_to_id(&rec);
 	int src = rec.socket == &E->sock ? 0 : rec.socket == &E->other ? 1 : -1;
 	if (id < 0 || src < 0) { if (!E->weak && !E->mirror_bad) { E->mirror_bad = true; E->mirror_msg = "router-key callback for a key nobody announced"; } return; }
-	if (E->reload_active && E->lock_depth == 0 && E->have_fsm_thread && pthread_equal(pthread_self(), E->fsm_thread)) sample_battery();
+	if (E->reload_active && E->lock_depth == 0 && !pthread_equal(pthread_self(), E->main_thread)) sample_battery();
 	(added ? E->cb_ev[{id, src}].first : E->cb_ev[{id, src}].second)++;
 	bool ok = added ? E->spki_mirror.insert({id, src}).second : E->spki_mirror.erase({id, src}) == 1;
 	if (!ok && !E->mirror_bad) {
